@@ -335,6 +335,17 @@ class Xf(ast.NodeTransformer):
         return out
 
 
+_NO_SHELL_BASE = []
+
+
+def _init_no_shell():
+    import numpy as np
+    _NO_SHELL_BASE.append(np.ndarray)
+
+
+_init_no_shell()
+
+
 def _unwrap(fn):
     from numba.core.dispatcher import Dispatcher
     if isinstance(fn, Dispatcher):
@@ -355,7 +366,7 @@ def _record(fn, src):
     return name
 
 
-def transform(fn, overrides=None, _memo=None, merge=True, also=(), safe_calls=()):
+def transform(fn, overrides=None, _memo=None, merge=True, also=(), safe_calls=(), owner=None):
     """Return the working tree's `fn` re-compiled from source with the merging pass applied and
     its module globals replaced by shims / transformed kernels."""
     from numba.core.dispatcher import Dispatcher
@@ -375,12 +386,25 @@ def transform(fn, overrides=None, _memo=None, merge=True, also=(), safe_calls=()
     tree = xf.visit(tree)
     cls_name = None
     qn = fn.__qualname__.split(".")
+    g = dict(fn.__globals__)
     if len(qn) >= 2 and qn[-2] != "<locals>":
         cls_name = qn[-2]
-        tree = ast.Module([ast.ClassDef(cls_name, [], [], tree.body, [], [])], [])
+        real_cls = owner if owner is not None else fn.__globals__.get(cls_name)
+        bases = []
+        if isinstance(real_cls, type):
+            # class shell: same name (private-name mangling), subclass of the real class;
+            # zero-argument super() skips the real class itself
+            g["_rt_real_cls"] = real_cls
+            first = fd.args.args[0].arg if fd.args.args else None
+            if first:
+                for nd in ast.walk(tree):
+                    if isinstance(nd, ast.Call) and isinstance(nd.func, ast.Name) and nd.func.id == "super" and not nd.args:
+                        nd.args = [ast.Name("_rt_real_cls", ast.Load()), ast.Name(first, ast.Load())]
+            if not issubclass(real_cls, tuple(_NO_SHELL_BASE)):
+                bases = [ast.Name("_rt_real_cls", ast.Load())]
+        tree = ast.Module([ast.ClassDef(cls_name, bases, [], tree.body, [], [])], [])
         tree.body[0].type_params = []
     ast.fix_missing_locations(tree)
-    g = dict(fn.__globals__)
     g.update(RT)
     if fn.__closure__:
         for name, cell in zip(fn.__code__.co_freevars, fn.__closure__):
@@ -392,6 +416,10 @@ def transform(fn, overrides=None, _memo=None, merge=True, also=(), safe_calls=()
     loc = {}
     exec(code, g, loc)
     newf = loc[cls_name].__dict__[fd.name] if cls_name else loc[fd.name]
+    if isinstance(newf, (staticmethod, classmethod)):
+        newf = newf.__func__
+    if cls_name:
+        newf._shell = loc[cls_name]
     if fn.__defaults__ and not newf.__defaults__:
         newf.__defaults__ = fn.__defaults__
     _memo[fn] = newf
@@ -462,3 +490,84 @@ def extract_loop_body(fn, overrides=None, which=0, merge=True, name="step", drop
     stepf = loc[name]
     stepf._stats = xf.stats
     return stepf, args
+
+
+def parse_fn(fn):
+    """(FunctionDef, python function) of the working tree's source of fn"""
+    fn = _unwrap(fn)
+    src = source_of(fn)
+    _record(fn, src)
+    return ast.parse(src).body[0], fn
+
+
+def body_wo_doc(fd):
+    b = list(fd.body)
+    if b and isinstance(b[0], ast.Expr) and isinstance(b[0].value, ast.Constant) and isinstance(b[0].value.value, str):
+        b = b[1:]
+    return b
+
+
+def extract_block(fn, pick, overrides=None, merge=True, name="block", extra_args=()):
+    """Compile a list of statements of the real function (chosen by pick(FunctionDef) from the freshly
+    parsed source) into a function of the locals they read, returning a dict of the locals they write
+    (and `_ret_` for a top-level return)."""
+    from numba.core.dispatcher import Dispatcher
+    if overrides is None:
+        overrides = core.install_builtins()
+    fd, fn = parse_fn(fn)
+    stmts = list(pick(fd))
+    params = [a.arg for a in fd.args.args]
+    assigned = set(params)
+    for n in ast.walk(fd):
+        if isinstance(n, ast.Name) and isinstance(n.ctx, ast.Store):
+            assigned.add(n.id)
+    loaded, stored = set(), set()
+    body = []
+    for s_ in stmts:
+        if isinstance(s_, ast.Return):
+            s_ = ast.Assign([ast.Name("_ret_", ast.Store())], s_.value or ast.Constant(None))
+            stored.add("_ret_")
+            body.append(s_)
+            break
+        body.append(s_)
+    for s_ in body:
+        for n in ast.walk(s_):
+            if isinstance(n, ast.Name):
+                (loaded if isinstance(n.ctx, ast.Load) else stored).add(n.id)
+            if isinstance(n, ast.AugAssign) and isinstance(n.target, ast.Name):
+                loaded.add(n.target.id)
+    args = sorted((loaded & assigned) | set(extra_args))
+    xf = Xf(merge=merge)
+    body = xf._elim_continue(body) if merge else body
+    ret = ast.Return(ast.Dict([ast.Constant(k) for k in sorted(stored)],
+                              [ast.Call(ast.Attribute(ast.Call(ast.Name("locals", ast.Load()), [], []), "get", ast.Load()),
+                                        [ast.Constant(k)], []) for k in sorted(stored)]))
+    newfd = ast.FunctionDef(name, ast.arguments([], [ast.arg(a) for a in args], None, [], [], None, []),
+                            body + [ret], [], None)
+    newfd.type_params = []
+    mod = ast.Module([newfd], [])
+    mod = xf.visit(mod)
+    ast.fix_missing_locations(mod)
+    g = dict(fn.__globals__)
+    memo = {}
+    for k, v in list(g.items()):
+        if isinstance(v, Dispatcher):
+            g[k] = transform(v, overrides, memo, merge)
+    g.update(RT)
+    g.update(overrides)
+    loc = {}
+    exec(compile(mod, f"<symx-block:{fn.__qualname__}>", "exec"), g, loc)
+    f = loc[name]
+    f._stats = xf.stats
+    f._args = args
+    f._src = "\n".join(ast.unparse(s_) for s_ in stmts)
+    return f
+
+
+def call_block(f, **kw):
+    """call an extracted block with keyword state; names the block does not use are ignored, names it
+    needs but were not given are an error"""
+    missing = [a for a in f._args if a not in kw]
+    if missing:
+        raise EngineError(f"block needs state {missing}")
+    return f(**{a: kw[a] for a in f._args})
